@@ -158,6 +158,25 @@ def sample(rng):
     return bp
 
 
+def random_trace(rng):
+    bp = BiddingPhase(rng.choice(list(Player)), rng.choice(list(Vul)))
+    q = 'bridge_env.bidding_phase.BiddingPhase.take_bid'
+    style = rng.random()
+
+    def step(obj, i):
+        if i > 330:
+            return None
+        r = rng.random()
+        if r < (0.75 if style < 0.5 else 0.4):
+            return q, dict(bid=Bid.Pass)
+        if r < 0.9:
+            legal = [c for c in G.CALLS_IN_ORDER if obj.available_bid[c.idx] == 1]
+            pick = legal[:4] + legal[-3:] if style < 0.8 else legal
+            return q, dict(bid=rng.choice(pick))
+        return q, dict(bid=rng.choice(G.CALLS_IN_ORDER))   # possibly illegal / after the end
+    return bp, step
+
+
 @klass('bridge_env.bidding_phase.BiddingPhase', props=P123)
 class _BP:
     shape = BPShape
@@ -165,6 +184,7 @@ class _BP:
     rebuild = rebuild
     sample = sample
     trace = trace
+    random_trace = random_trace
 
 
 # ---- __init__ ----------------------------------------------------------------------------------
